@@ -143,6 +143,14 @@ func runOne(t *testing.T, spec Spec, verifSeed uint64, run int, tier string, d *
 				}
 			}()
 			synctest.Test(t, func(t *testing.T) {
+				defer func() {
+					// a panic on the bubble's root goroutine would kill the whole worker process
+					if r := recover(); r != nil {
+						buf := make([]byte, 1<<14)
+						buf = buf[:runtime.Stack(buf, false)]
+						res.Panic = fmt.Sprint(r) + "\n" + string(buf)
+					}
+				}()
 				rc.T = t
 				s = NewSim(d)
 				if keepTrace {
